@@ -14,7 +14,7 @@ from harness.runner import Clause
 from oracle import geom
 
 RULE = ("Generated: valid and invalid constructor inputs with margins for all ten classes: simple polygons (all zoo kinds, both "
-        "orientations, any plane, scales 10^U(-3,3)) vs cycles with a proper crossing (crossing parameters in (0.05,0.95)), an "
+        "orientations, any plane, scales 10^U(-3,3), or moved 1e3..1e7 sizes from the origin within their plane) vs cycles with a proper crossing (crossing parameters in (0.05,0.95)), an "
         "off-plane vertex (>= 1% of the size), duplicate vertices at adjacent and non-adjacent positions, < 3 vertices; integer "
         "polygons classified exactly; convex position (any permutation) vs an extra point deeper than 1e-3*size inside the hull; "
         "non-positive/NaN radii and axes, negative rounding radii; argument containers list/tuple/float ndarray/int ndarray. "
@@ -62,7 +62,7 @@ def _polygon_case(draw):
     return {"mode": mode, "poly": draw(gp.simple_polygon(max_n=16)), "emb": draw(gp.embedding()), "i": draw(st.integers(0, 50)),
             "j": draw(st.integers(0, 50)), "container": draw(st.sampled_from(["list", "tuple", "ndarray", "ndarray"])),
             "logs": draw(f(-3, 3)) if draw(st.booleans()) else 0.0, "lat": draw(st.lists(st.tuples(st.integers(0, 5), st.integers(0, 5)), min_size=3, max_size=8)),
-            "intarray": draw(st.booleans())}
+            "intarray": draw(st.booleans()), "far": draw(st.sampled_from([None, None, None, 3.0, 5.0, 6.0, 7.0]))}
 
 
 def _proper_crossing(P):
@@ -127,6 +127,20 @@ def _polygon(case, rec):
     V = em["verts"] * 10.0 ** case["logs"]
     arg_n = em["normal_arg"]
     size = 2 * float(np.max(np.linalg.norm(V - V.mean(axis=0), axis=1)))
+    if case.get("far") and mode != "too_few":
+        # the same polygon 10^3..10^7 of its own sizes away from the origin, moved within its own plane (validity is a
+        # property of the figure, not of where it lies); unit scale so that the documented absolute planarity
+        # tolerance (1e-5) stays far above the rounding of the coordinates out there
+        V = em["verts"].copy()
+        size = 2 * float(np.max(np.linalg.norm(V - V.mean(axis=0), axis=1)))
+        u_, v_, _ = geom.plane_frame(em["nplus"])
+        V = V + 10.0 ** case["far"] * size * (0.6 * u_ + 0.8 * v_)
+        P2f = np.stack([(V - V.mean(axis=0)) @ u_, (V - V.mean(axis=0)) @ v_], axis=1)
+        if not geom.is_simple_polygon_2d(P2f) or len(np.unique(np.round(P2f / (1e-6 * size)), axis=0)) != len(P2f):
+            rec.label("outside_domain:rounding_broke_simplicity")
+            return
+        sig["far"] = "1e%g" % case["far"]
+        rec.label("far:1e%g" % case["far"])
     expect_ok = True
     if mode == "crossing":
         i, j = case["i"] % n, case["j"] % n
